@@ -2,7 +2,7 @@
 # amaranth: UnusedElaboratable=no
 from hypothesis import strategies as st
 
-from vlib import arbsim
+from vlib import arbsim, gens, sim
 from vlib.common import Violation
 
 PROP = "C09"
@@ -17,14 +17,14 @@ RULE = ("(a)+(d): random schedules as in C08 (N up to 6, thorough 8); the owner 
         "granted. Non-trivial = a random schedule with N >= 3 and >= 3 ownership changes, or a table. "
         "Distinct = canonical JSON.")
 BUDGET = {"quick": (16, 200), "thorough": (16, 5000)}
-ESSENTIAL = ["table", "N=5", "N=6", "released_by_dropping_stb", "contended_while_busy"]
+ESSENTIAL = ["refused_add_ghost", "table", "N=5", "N=6", "released_by_dropping_stb", "contended_while_busy"]
 ASSUMPTIONS = ["liveness is decided through the finite reduction stated in the property (exact next-owner "
                "function + no unfair cycle in the extracted transition graph) for N <= 6 (table) / N <= 8 (schedules)"]
 
 
 def strategy(tier):
-    return st.fixed_dictionaries({"cfg": arbsim.arbiter_config(max_n=6 if tier == "quick" else 8, min_n=2),
-                                  "sched": arbsim.schedule_spec()})
+    return gens.with_pre(st.fixed_dictionaries({"cfg": arbsim.arbiter_config(max_n=6 if tier == "quick" else 8, min_n=2),
+                                               "sched": arbsim.schedule_spec()}))
 
 
 def exhaustive(tier):
@@ -87,6 +87,8 @@ def _check_table(n, with_lock, stats):
 
 
 def check(spec, stats):
+    if sim.set_pre(spec):
+        stats.label("pre_elaborated")
     if "table" in spec:
         return _check_table(spec["table"]["n"], spec["table"]["lock"], stats)
     arbsim.run_schedule(spec["cfg"], spec["sched"], stats, PROP, False, True)
